@@ -42,6 +42,8 @@ pub fn hostile_value(depth: u32) -> BoxedStrategy<MVal> {
         1 => inner.clone().prop_map(|v| MVal::Map((0..9).map(|i| (MKey::Str(format!("k{i}")), v.clone())).chain(std::iter::once((MKey::Str("a".into()), MVal::Int(1)))).collect())),
         // homogeneous and mixed arrays past the 21-element threshold of std's sort checks
         1 => inner.prop_map(|v| MVal::Array((0..23).map(|i| if i % 3 == 0 { v.clone() } else { MVal::Int(i) }).collect())),
+        // long arrays of floats with NaN, infinities and both zeros scattered in (comparison-based built-ins must cope with unordered elements)
+        1 => any::<u64>().prop_map(|seed| { let mut m = Mix(seed); MVal::Array((0..(22 + m.next() % 12)).map(|i| match m.next() % 7 { 0 => MVal::Float(f64::NAN), 1 => MVal::Float(-f64::NAN), 2 => MVal::Float(f64::INFINITY), 3 => MVal::Float(-0.0), 4 => MVal::Int(i as i128), _ => MVal::Float(i as f64 * 0.5 - 3.0) }).collect()) }),
     ]
     .boxed()
 }
